@@ -241,6 +241,16 @@ def yaml_history(raws):
             a.domain.nx = a.domain.nx + 2
             a.met.wind_speed = 99.0
             a.towers[0].z_m = a.towers[0].z_m + 1.0
+            # ... also in place: the list-valued fields of what it got are its own lists
+            for fld in ("ustar", "mol", "wind_dir", "timestamps"):
+                v = getattr(a.met, fld, None)
+                if isinstance(v, list) and v:
+                    v[0] = (v[0] + 7.0) if isinstance(v[0], (int, float)) else "edited"
+                    v.reverse()
+            lv = getattr(a.domain, "output_levels", None)
+            if isinstance(lv, list) and lv:
+                lv.reverse()
+                lv[0] = 0
             c = load_config(path)
             if c != b:
                 return Verdict(False, "load %d repeated after the caller modified the first result: differs from the dictionary in the file" % k,
